@@ -89,6 +89,11 @@ def handleStack (case : Nat) (j : Json) : IO Unit := do
   if jstr (jget impl "start_err") != "" then
     emit case false true "start-error" "" (jstr (jget impl "start_err")); return
   let eps := parseEps sc
+  -- an upload of a MiB or more that the harness's own client could not finish writing or reading in its time (a cold or
+  -- loaded machine) says nothing about failover: not judged
+  let cl0 := (jarr (jget impl "clients")).getD 0 Json.null
+  if jnat (jget sc "req_pad") ≥ 1048576 && (jstr (jget cl0 "err") == "timeout" || jstr (jget cl0 "err") == "write" || jstr (jget cl0 "err") == "dial") then
+    emit case true true "trivial" "" s!"client {jstr (jget cl0 "err")} on an upload of {jnat (jget sc "req_pad")} bytes; not judged"; return
   let balancer := jstr (jget sc "balancer")
   let cl := (jarr (jget impl "clients")).getD 0 Json.null
   let cStatus := jnat (jget cl "status")
